@@ -468,37 +468,31 @@ impl Expr {
 				}
 			}
 			Rule::bin_expr => {
-				let mut expr = inner.into_inner();
-				let mut left_pair = expr.next().unwrap().into_inner().next().unwrap();
-				let mut left_negated = false;
-				if let Rule::unary_minus = left_pair.as_rule() {
-					left_pair = left_pair.into_inner().next().unwrap();
-					left_negated = true;
-				}
-
-				let mut left = Self::from_rule(left_pair);
-
-				if let Expr::Int(int) = &mut left {
-					if left_negated {
-						*int = -(*int);
+				// bin_atom = bin_lit | "(" bin_expr ")", bin_lit = unary_minus? (var | int)
+				let atom = |atom: Pair<Rule>| -> Self {
+					let inner = atom.into_inner().next().unwrap();
+					if !matches!(inner.as_rule(), Rule::bin_lit) {
+						return Self::from_rule(inner)
+					}
+					let mut parts = inner.into_inner();
+					let mut operand = parts.next().unwrap();
+					let negated = matches!(operand.as_rule(), Rule::unary_minus);
+					if negated {
+						operand = parts.next().unwrap();
+					}
+					let operand = Self::from_rule(operand);
+					match (negated, operand) {
+						(true, Expr::Int(int)) => Expr::Int(-int),
+						(true, other) => Self::BinExp { op: BinOp::Sub, left: Box::new(Expr::Int(0)), right: Box::new(other) },
+						(false, other) => other
 					}
 				};
+				let mut expr = inner.into_inner();
+				let mut left = atom(expr.next().unwrap());
 
 				while let Some(op_pair) = expr.next() {
 					let op = BinOp::bin_op_from_rule(op_pair);
-					let mut right_pair = expr.next().unwrap().into_inner().next().unwrap();
-					let mut right_negated = false;
-					if let Rule::unary_minus = right_pair.as_rule() {
-						right_pair = right_pair.into_inner().next().unwrap();
-						right_negated = true;
-					}
-					let mut right = Self::from_rule(right_pair);
-					if let Expr::Int(int) = &mut right {
-						if right_negated {
-							*int = -(*int);
-						}
-					};
-
+					let right = atom(expr.next().unwrap());
 					left = Self::BinExp { op, left: Box::new(left), right: Box::new(right) };
 				}
 
